@@ -1,34 +1,457 @@
 package main
 
 import (
+	"encoding/json"
+	"flag"
 	"fmt"
 	"os"
+	"os/exec"
+	"path/filepath"
+	"sort"
+	"strings"
+	"time"
 
-	"golang.org/x/tools/go/packages"
-	"golang.org/x/tools/go/ssa"
-	"golang.org/x/tools/go/ssa/ssautil"
+	"govc/internal/vc"
 )
 
+const verifDir = "/verif"
+
 func main() {
-	cfg := &packages.Config{Mode: packages.LoadAllSyntax, Dir: "/repo", BuildFlags: []string{"-tags=verif"}}
-	pkgs, err := packages.Load(cfg, os.Args[1:]...)
-	if err != nil {
-		panic(err)
+	if len(os.Args) < 2 {
+		fmt.Fprintln(os.Stderr, "usage: govc check|replay|ssa ...")
+		os.Exit(2)
 	}
-	prog, spkgs := ssautil.AllPackages(pkgs, ssa.GlobalDebug)
-	prog.Build()
-	for _, p := range spkgs {
-		if p == nil {
+	switch os.Args[1] {
+	case "check":
+		os.Exit(check(os.Args[2:]))
+	case "replay":
+		os.Exit(replayCmd(os.Args[2:]))
+	case "ssa":
+		os.Exit(dumpSSA(os.Args[2:]))
+	default:
+		fmt.Fprintln(os.Stderr, "unknown command")
+		os.Exit(2)
+	}
+}
+
+func contractPkgs(repo string) []string {
+	ms, _ := filepath.Glob(filepath.Join(repo, "*", "verif_contracts*.go"))
+	seen := map[string]bool{}
+	var out []string
+	for _, m := range ms {
+		d := "./" + filepath.Base(filepath.Dir(m))
+		if !seen[d] {
+			seen[d] = true
+			out = append(out, d)
+		}
+	}
+	sort.Strings(out)
+	return out
+}
+
+func hasProp(props []string, p string) bool {
+	if p == "" || p == "all" {
+		return true
+	}
+	for _, x := range props {
+		if x == p {
+			return true
+		}
+	}
+	return false
+}
+
+// known findings -------------------------------------------------------------
+
+type finding struct {
+	kind, prop, obligation, text string
+}
+
+func loadFindings() []finding {
+	data, err := os.ReadFile(filepath.Join(verifDir, "known-findings.txt"))
+	if err != nil {
+		return nil
+	}
+	var out []finding
+	for _, l := range strings.Split(string(data), "\n") {
+		l = strings.TrimSpace(l)
+		if l == "" || strings.HasPrefix(l, "#") {
 			continue
 		}
-		for _, m := range p.Members {
-			if f, ok := m.(*ssa.Function); ok {
-				f.WriteTo(os.Stdout)
-				for _, a := range f.AnonFuncs {
-					a.WriteTo(os.Stdout)
-				}
+		kind, rest, ok := strings.Cut(l, ":")
+		if !ok || (kind != "finding" && kind != "fixed") {
+			continue
+		}
+		f := finding{kind: kind}
+		var words []string
+		for _, w := range strings.Fields(rest) {
+			switch {
+			case strings.HasPrefix(w, "property="):
+				f.prop = w[len("property="):]
+			case strings.HasPrefix(w, "obligation="):
+				f.obligation = w[len("obligation="):]
+			default:
+				words = append(words, w)
 			}
 		}
+		f.text = strings.Join(words, " ")
+		out = append(out, f)
 	}
-	fmt.Println("ok")
+	return out
+}
+
+// replay files ----------------------------------------------------------------
+
+type replayFile struct {
+	Property   string         `json:"property"`
+	Obligation string         `json:"obligation"`
+	Function   string         `json:"function"`
+	Pkg        string         `json:"pkg"`
+	Goal       string         `json:"goal"`
+	Kind       string         `json:"kind"`
+	Result     string         `json:"solver_result"`
+	Solver     string         `json:"solver"`
+	Inputs     map[string]any `json:"inputs,omitempty"`
+	SolverOut  string         `json:"solver_output"`
+	SMTFile    string         `json:"smt_file,omitempty"`
+	EngineErr  string         `json:"engine_error,omitempty"`
+	Replayed   string         `json:"replay_outcome"`
+	Note       string         `json:"note"`
+}
+
+func trim(s string, n int) string {
+	if len(s) > n {
+		return s[:n] + "...[truncated]"
+	}
+	return s
+}
+
+// runReplay executes the package's replay driver against the real code; returns outcome text.
+func runReplay(repo string, rf *replayFile, path string) (string, bool) {
+	pkgDir := strings.TrimPrefix(rf.Pkg, vc.ModPath+"/")
+	driver := filepath.Join(verifDir, "replay", pkgDir, "zz_govc_replay_test.go")
+	if _, err := os.Stat(driver); err != nil {
+		return "no replay driver for package " + pkgDir, false
+	}
+	if rf.Inputs == nil {
+		return "solver gave no model to replay", false
+	}
+	tmp, err := os.MkdirTemp("", "govc-replay")
+	if err != nil {
+		return err.Error(), false
+	}
+	defer os.RemoveAll(tmp)
+	ov := map[string]any{"Replace": map[string]string{filepath.Join(repo, pkgDir, "zz_govc_replay_test.go"): driver}}
+	ovData, _ := json.Marshal(ov)
+	ovPath := filepath.Join(tmp, "overlay.json")
+	os.WriteFile(ovPath, ovData, 0o644)
+	cmd := exec.Command("go", "test", "-overlay", ovPath, "-vet=off", "-count=1", "-v", "-timeout", "60s", "-run", "^TestGovcReplay$", "./"+pkgDir)
+	cmd.Dir = repo
+	cmd.Env = append(os.Environ(), "GOFLAGS=-mod=mod", "GOPROXY=off", "GOSUMDB=off", "GOTOOLCHAIN=local", "GOVC_REPLAY_FILE="+path)
+	out, _ := cmd.CombinedOutput()
+	for _, l := range strings.Split(string(out), "\n") {
+		if i := strings.Index(l, "GOVC-REPLAY: "); i >= 0 {
+			msg := l[i+len("GOVC-REPLAY: "):]
+			return msg, strings.HasPrefix(msg, "REPRODUCED")
+		}
+	}
+	return "replay driver produced no verdict: " + trim(string(out), 400), false
+}
+
+func replayCmd(args []string) int {
+	fs := flag.NewFlagSet("replay", flag.ExitOnError)
+	repo := fs.String("repo", "/repo", "repository root")
+	fs.Parse(args)
+	if fs.NArg() < 1 {
+		fmt.Println("usage: govc replay <file>")
+		return 2
+	}
+	data, err := os.ReadFile(fs.Arg(0))
+	if err != nil {
+		fmt.Println(err)
+		return 2
+	}
+	var rf replayFile
+	if err := json.Unmarshal(data, &rf); err != nil {
+		fmt.Println(err)
+		return 2
+	}
+	fmt.Printf("obligation: %s\ngoal: %s\nsolver: %s -> %s\n", rf.Obligation, rf.Goal, rf.Solver, rf.Result)
+	msg, ok := runReplay(*repo, &rf, fs.Arg(0))
+	fmt.Println("replay:", msg)
+	if ok {
+		fmt.Printf("VIOLATION property=%s replay=%s\n", rf.Property, fs.Arg(0))
+		return 1
+	}
+	if rf.Result != "unsat" {
+		fmt.Printf("VIOLATION property=%s replay=%s no-failing-input-found\n", rf.Property, fs.Arg(0))
+		return 1
+	}
+	return 0
+}
+
+// check -------------------------------------------------------------------------
+
+func check(args []string) int {
+	fs := flag.NewFlagSet("check", flag.ExitOnError)
+	repo := fs.String("repo", "/repo", "repository root")
+	prop := fs.String("prop", "all", "property id")
+	tier := fs.String("tier", "quick", "quick|thorough")
+	fn := fs.String("func", "", "only this function key (substring)")
+	pkgsFlag := fs.String("pkgs", "", "comma separated package dirs (default: all with contract files)")
+	dump := fs.String("dump", "", "directory to keep .smt2 files")
+	timeout := fs.Duration("timeout", 10*time.Second, "per-obligation timeout")
+	evidence := fs.String("evidence", "", "evidence file to write")
+	verbose := fs.Bool("v", false, "verbose")
+	noReplay := fs.Bool("noreplay", false, "do not run replays")
+	fs.Parse(args)
+	start := time.Now()
+	seed := 0
+	fmt.Sscanf(os.Getenv("VERIF_SEED"), "%d", &seed)
+
+	pkgs := contractPkgs(*repo)
+	if *pkgsFlag != "" {
+		pkgs = strings.Split(*pkgsFlag, ",")
+	}
+	if len(pkgs) == 0 {
+		fmt.Println("no contract files found")
+		return 2
+	}
+	eng, err := vc.Load(*repo, pkgs)
+	var obls []*vc.Obligation
+	type engErr struct {
+		msg   string
+		props []string
+		fn    string
+		pkg   string
+	}
+	var engineErrs []engErr
+	if err != nil {
+		// the repository does not load (compile error etc.): nothing can be proved
+		fmt.Println("LOAD ERROR:", err)
+		engineErrs = append(engineErrs, engErr{msg: "load error: " + err.Error(), props: []string{*prop}})
+		eng = &vc.Engine{Specs: map[string]*vc.PkgSpec{}, Assumptions: map[string]bool{}, Externals: map[string]bool{}}
+	}
+	var paths []string
+	for p := range eng.Specs {
+		paths = append(paths, p)
+	}
+	sort.Strings(paths)
+	for _, p := range paths {
+		ps := eng.Specs[p]
+		for _, key := range ps.Order {
+			ct := ps.Funcs[key]
+			if !hasProp(ct.Props, *prop) || (*fn != "" && !strings.Contains(key, *fn)) {
+				continue
+			}
+			if ct.Trusted != "" {
+				eng.Assumptions["trusted contract (body not verified): "+key+" -- "+ct.Trusted] = true
+				continue
+			}
+			f := eng.LookupFunc(p, key)
+			if f == nil {
+				engineErrs = append(engineErrs, engErr{fmt.Sprintf("contract names function %s which no longer exists in %s", key, p), ct.Props, key, p})
+				continue
+			}
+			os2, err := eng.VerifyFunc(f, ct)
+			if err != nil {
+				engineErrs = append(engineErrs, engErr{err.Error(), ct.Props, key, p})
+			}
+			obls = append(obls, os2...)
+			eng.FuncsVerified = append(eng.FuncsVerified, p[len(vc.ModPath)+1:]+"."+key)
+		}
+		for _, lm := range ps.Lemmas {
+			if !hasProp(lm.Props, *prop) || *fn != "" {
+				continue
+			}
+			os2, err := eng.VerifyLemma(lm)
+			if err != nil {
+				engineErrs = append(engineErrs, engErr{err.Error(), lm.Props, "lemma " + lm.Name, p})
+			}
+			obls = append(obls, os2...)
+		}
+	}
+	dir := *dump
+	if dir == "" {
+		dir, _ = os.MkdirTemp("", "govc")
+		defer os.RemoveAll(dir)
+	} else {
+		os.MkdirAll(dir, 0o755)
+	}
+	cfg := &vc.SolverCfg{Timeout: *timeout, Solvers: []string{"z3-new", "z3", "cvc5"}, Dir: dir, Parallel: 6, Seed: seed}
+	if *tier == "thorough" {
+		cfg.All = true
+		if *timeout == 10*time.Second {
+			cfg.Timeout = 60 * time.Second
+		}
+	}
+	vc.SolveAll(obls, cfg)
+
+	findings := loadFindings()
+	isKnown := func(p, obl string) *finding {
+		for i := range findings {
+			f := &findings[i]
+			if f.kind == "finding" && f.prop == p && f.obligation == obl {
+				return f
+			}
+		}
+		return nil
+	}
+	propsOf := func(ps []string) []string {
+		if *prop == "all" || *prop == "" {
+			return ps
+		}
+		return []string{*prop}
+	}
+	replayDir := filepath.Join(verifDir, "replay-out", *prop)
+	os.RemoveAll(replayDir)
+	violations := 0
+	var knownObls []string
+	bySolver := map[string]int{}
+	var solverMs int64
+	var samples []any
+	discharged := 0
+	counted := 0
+	for _, o := range obls {
+		solverMs += o.Ms
+		if o.Passed() {
+			bySolver[o.Solver]++
+			discharged++
+			counted++
+			if len(samples) < 12 {
+				samples = append(samples, map[string]any{"obligation": o.Name, "goal": o.Desc, "result": o.Result, "solver": o.Solver, "ms": o.Ms})
+			}
+			if *verbose {
+				fmt.Printf("OBLIGATION %s discharged %s(%s) %dms\n", o.Name, o.Result, o.Solver, o.Ms)
+			}
+			continue
+		}
+		fmt.Printf("OBLIGATION %s FAILED %s(%s) %dms\n    goal: %s\n", o.Name, o.Result, o.Solver, o.Ms, o.Desc)
+		if o.Result != "sat" {
+			fmt.Printf("    solver: %s\n", trim(o.Output, 300))
+		}
+		allKnown := true
+		for _, p := range propsOf(o.Props) {
+			if f := isKnown(p, o.Name); f != nil {
+				fmt.Printf("KNOWN-FINDING: property=%s %s (obligation %s)\n", p, f.text, o.Name)
+				continue
+			}
+			allKnown = false
+			os.MkdirAll(replayDir, 0o755)
+			rf := &replayFile{Property: p, Obligation: o.Name, Function: o.Func, Pkg: o.Pkg, Goal: o.Desc, Kind: o.Kind,
+				Result: o.Result, Solver: o.Solver, SolverOut: trim(o.Output+"\n"+o.Model, 6000)}
+			smtPath := filepath.Join(replayDir, sanitizeName(o.Name)+".smt2")
+			os.WriteFile(smtPath, []byte(o.SMT), 0o644)
+			rf.SMTFile = smtPath
+			if o.Result == "sat" {
+				rf.Inputs = vc.ExtractInputs(o, cfg)
+			}
+			path := filepath.Join(replayDir, sanitizeName(o.Name)+".json")
+			writeJSON(path, rf)
+			reproduced := false
+			if !*noReplay && o.Result == "sat" {
+				rf.Replayed, reproduced = runReplay(*repo, rf, path)
+			} else if o.Result != "sat" {
+				rf.Replayed = "no counterexample: the solver answered " + o.Result + " on an obligation that is discharged on the pinned tree"
+			}
+			rf.Note = "failed proof obligation of the contract-based verification; see goal, solver_output and smt_file"
+			writeJSON(path, rf)
+			violations++
+			if reproduced {
+				fmt.Printf("    replay: %s\n", rf.Replayed)
+				fmt.Printf("VIOLATION property=%s replay=%s\n", p, path)
+			} else {
+				fmt.Printf("    replay: %s\n", rf.Replayed)
+				fmt.Printf("VIOLATION property=%s replay=%s no-failing-input-found\n", p, path)
+			}
+		}
+		if allKnown {
+			knownObls = append(knownObls, o.Name)
+		} else {
+			counted++
+		}
+	}
+	for i, e := range engineErrs {
+		fmt.Println("ENGINE:", e.msg)
+		for _, p := range propsOf(e.props) {
+			name := fmt.Sprintf("%s.%s#generate", strings.TrimPrefix(e.pkg, vc.ModPath+"/"), e.fn)
+			if f := isKnown(p, name); f != nil {
+				fmt.Printf("KNOWN-FINDING: property=%s %s (obligation %s)\n", p, f.text, name)
+				continue
+			}
+			os.MkdirAll(replayDir, 0o755)
+			path := filepath.Join(replayDir, fmt.Sprintf("engine-%d.json", i))
+			writeJSON(path, &replayFile{Property: p, Obligation: name, Function: e.fn, Pkg: e.pkg, Kind: "generate", EngineErr: e.msg,
+				Goal: "all obligations of " + e.fn + " can be generated from the current source", Result: "undischarged",
+				Replayed: "no counterexample: obligations could not be generated", Note: "the function left the verified subset or its contract no longer matches the code; the proofs that held on the pinned tree no longer exist"})
+			violations++
+			counted++
+			fmt.Printf("VIOLATION property=%s replay=%s no-failing-input-found\n", p, path)
+		}
+	}
+	wall := time.Since(start).Seconds()
+	fmt.Printf("property=%s tier=%s functions=%d obligations=%d discharged=%d known=%d violations=%d wall=%.1fs\n", *prop, *tier, len(eng.FuncsVerified), counted, discharged, len(knownObls), violations, wall)
+	if counted == 0 {
+		fmt.Println("SELF-CHECK: no obligations were generated for this property (vacuous run)")
+		violations++
+	}
+	if *evidence != "" {
+		var exts []string
+		for k := range eng.Externals {
+			exts = append(exts, k)
+		}
+		sort.Strings(exts)
+		assumptions := eng.SortedAssumptions()
+		for _, x := range exts {
+			assumptions = append(assumptions, "callee without contract, result unconstrained, may write through slice arguments: "+x)
+		}
+		assumptions = append(assumptions, fmt.Sprintf("run-time panic sites assumed safe in functions marked maypanic: %d", eng.PanicAssumed))
+		assumptions = append(assumptions, standingAssumptions...)
+		ev := map[string]any{
+			"property_id": *prop, "tier": *tier, "seed": seed, "level": "proof", "wall_s": wall, "violations": violations,
+			"coverage": map[string]any{
+				"obligations": counted, "discharged": discharged,
+				"checker_cmd":  "/verif/bin/govc check -prop " + *prop + " -tier " + *tier + " (VC generation over go/ssa of /repo's working tree; z3 4.8.12, z3 5.1.0 and cvc5 1.0.3 raced per obligation)",
+				"trusted_base": trustedBase,
+				"samples":      samples,
+				"functions_under_contract": eng.FuncsVerified,
+				"by_solver":                bySolver,
+				"solver_ms_total":          solverMs,
+				"known_finding_obligations": knownObls,
+				"per_obligation_timeout_s": cfg.Timeout.Seconds(),
+			},
+			"assumptions": assumptions,
+		}
+		os.MkdirAll(filepath.Dir(*evidence), 0o755)
+		writeJSON(*evidence, ev)
+	}
+	if violations > 0 {
+		return 1
+	}
+	return 0
+}
+
+var trustedBase = []string{
+	"GoVC itself: SSA-to-SMT translation, heap-as-field-maps memory model, loop cutting, contract parser (/verif/govc)",
+	"golang.org/x/tools go/ssa and go/types v0.29.0 (SSA construction from the working tree)",
+	"z3 4.8.12, z3 5.1.0, cvc5 1.0.3 (an 'unsat' answer of any one is accepted in quick; thorough cross-checks all three)",
+	"built-in contracts of std-lib / third-party callees (listed under assumptions as 'assumed contract: ...')",
+	"Go memory model, sync.Mutex / sync/atomic / channel / context semantics as axiomatised by the engine",
+}
+
+var standingAssumptions = []string{
+	"integers are modelled exactly (mathematical value followed by the Go type's wrap-around), not as unbounded",
+	"slice capacities, offsets and string lengths are below 2^48",
+	"explicit panic(...) statements are specified behaviour and are not obligations",
+	"what the extraction drops: goroutine scheduling fairness, allocation failure, reflection/unsafe (absent), floating point, map iteration order (arbitrary)",
+}
+
+func sanitizeName(name string) string {
+	r := strings.NewReplacer("/", "_", "(", "", ")", "", "*", "", "#", "-", "$", "_", " ", "_", "~", "-", ":", "_")
+	return r.Replace(name)
+}
+
+func writeJSON(path string, v any) {
+	data, _ := json.MarshalIndent(v, "", " ")
+	os.WriteFile(path, data, 0o644)
 }
